@@ -384,7 +384,8 @@ def check_tree(col, ZConfig, schema, sname, base, rng, ncomp, tag):
                  {"schema": sname, "kind": tag, "rewrites": steps,
                   "original": t0, "rewritten": t1,
                   "outcome": cs.brief(o0)}
-                 if col.evaluations % 2003 == 0 else None)
+                 if col.evaluations % 2003 == 0 or not col.samples
+                 else None)
         if t1 == t0 or cs.same_outcome(o0, o1):
             continue
         # localise: replay the same composition step by step and report the
